@@ -14,6 +14,8 @@ def dispatch : P String := do
     | "surv" => compSurv
     | "repl" => compRepl
     | "gen" => compGen
+    | "spacing" => compSpacing
+    | "spnn" => compSpnn
     | "fitsort" => compFitsort
     | _ => pure s!"err unknown component {comp}"
   return s!"{seq} {comp} {body}"
